@@ -357,7 +357,14 @@ pub fn monitor(o: &Obs) -> Result<(), String> {
                 Ev::StreamEnd(i) | Ev::StreamErr(i) => i == id && *id >= V,
                 _ => false,
             });
-            if !cause && !o.done {
+            // (a requestor whose own stream has ended and to whom no reply is owed - every request taken from it has been
+            // answered to its sink - may be let go of as well: that is housekeeping, not abandonment)
+            let settled = *id < V && before.iter().any(|b| matches!(b, Ev::StreamEnd(i) if i == id)) && {
+                let asked = before.iter().filter(|b| matches!(b, Ev::StreamItem(i, Frame::Message(_)) if i == id)).count();
+                let answered = before.iter().filter(|b| matches!(b, Ev::SinkSend(i, _, true) if i == id)).count();
+                asked <= answered
+            };
+            if !cause && !settled && !o.done {
                 return Err(if *id >= V {
                     format!("C08/C10: replier v{} was unbound although its stream had not ended, its sink had not failed and it had not been turned away: what another peer did cost the topic its replier", *id - V)
                 } else {
